@@ -31,6 +31,8 @@ def tasks(tier, seed=0):
     out.append(task("vf.contracts.z3solve", "ob_batch_eval", "z3solve._batch_eval/state-restored+results", ["C17", "C14", "C11"], tier=tier))
     out.append(task("vf.contracts.z3solve", "ob_extrema", "z3solve._extrema/true-optimum", ["C11", "C17", "C14"], tier=tier))
     out += [task("vf.contracts.z3solve", "ob_thin_wrappers", f"z3solve.BackendZ3.{m}/delegates-the-callers-question", ["C11", "C14", "C17"], which=m, tier=tier) for m in ("_satisfiable", "_solution", "_eval", "_min", "_max")]
+    from vf.contracts import backendpub
+    out += [task("vf.contracts.backendpub", "ob_public", f"backend.Backend.{m}/hands-the-private-method-the-callers-question", ["C11", "C14", "C17"], method=m, tier=tier) for m in backendpub.METHODS]
     # a method added to a caching layer (a downsize() that empties a set a branch still shares ...) is outside every proved invariant
     out.append(task("vf.contracts.mixins", "ob_modelcache_copy", "mixin.ModelCacheMixin._copy/own-containers", ["C14", "C26", "C11"], tier=tier))
     out.append(task("vf.contracts.layers", "ob_method_coverage", "layer.methods/every-mixin-method-accounted-for", ["C11", "C14"]))
